@@ -984,6 +984,7 @@ def modularity_louvain_dir(W, gamma=1, hierarchy=False, seed=None):
     algorithm. Consequently, it may be worth to compare multiple runs.
     '''
     rng = get_rng(seed)
+    W = np.asarray(W, dtype=float)  # (unsigned integer storage wraps around below)
 
     n = len(W)  # number of nodes
     s = np.sum(W)  # total weight of edges
@@ -1119,6 +1120,7 @@ def modularity_louvain_und(W, gamma=1, hierarchy=False, seed=None):
     algorithm. Consequently, it may be worth to compare multiple runs.
     '''
     rng = get_rng(seed)
+    W = np.asarray(W, dtype=float)  # (unsigned integer storage wraps around below)
 
     n = len(W)  # number of nodes
     s = np.sum(W)  # weight of edges
@@ -1259,6 +1261,7 @@ def modularity_louvain_und_sign(W, gamma=1, qtype='sta', seed=None):
     algorithm. Consequently, it may be worth to compare multiple runs.
     '''
     rng = get_rng(seed)
+    W = np.asarray(W, dtype=float)  # (unsigned integer storage wraps around below)
 
     n = len(W)  # number of nodes
 
